@@ -146,6 +146,9 @@ def whileFuel {σ : Type} (guard cond : σ → Bool) (body : σ → σ × Bool) 
 def forBreak {σ ι : Type} (l : List ι) (body : σ → ι → σ × Bool) (s : σ) : σ :=
   (l.foldl (fun (p : σ × Bool) i => if p.2 then p else body p.1 i) (s, false)).1
 
+/-- `usize` subtraction as a release build computes it: wrapping modulo 2^64 -/
+def wsub (a b : Nat) : Nat := if b ≤ a then a - b else 2 ^ 64 + a - b
+
 /-- float comparisons against a finite literal: false on NaN (`none`) -/
 def fLe (a : Option Rat) (b : Rat) : Bool := match a with | some x => decide (x ≤ b) | none => false
 def fLt (a : Option Rat) (b : Rat) : Bool := match a with | some x => decide (x < b) | none => false
